@@ -652,8 +652,6 @@ def rust_str_lit(s):
             out += '\\n'
         elif ch == '\t':
             out += '\\t'
-        elif ch == "'":
-            out += "\\'"
         else:
             out += ch
     return out + '"'
